@@ -64,14 +64,23 @@ def main():
     check, mutation = sys.argv[1].upper(), sys.argv[2]
     tier = sys.argv[3] if len(sys.argv) > 3 else "quick"
     seed = int(__import__("os").environ.get("VERIF_SEED", "0"))
+    muts = mutation.split(",")      # several independent mutations may be applied in one run
+
+    def compose(table):
+        def f(i, s):
+            for m in muts:
+                if m in table:
+                    s = table[m](i, s)
+            return s
+        return f
     orig = mpgen.compile_iface
-    mpgen.compile_iface = lambda cwd, spec, i, flags=("-O1",), mutate=None: orig(cwd, spec, i, flags, MUT[mutation])
-    if mutation in BHV_MUT:
+    mpgen.compile_iface = lambda cwd, spec, i, flags=("-O1",), mutate=None: orig(cwd, spec, i, flags, compose(MUT))
+    if any(m in BHV_MUT for m in muts):
         orig_bl = gen.build_library
 
         def build_library(cwd, name, flags=("-O1",), san=False, timeout=1800):
             for p in (Path(cwd) / "src").glob("*.cxx"):
-                p.write_text(BHV_MUT[mutation]("behaviour", p.read_text()))
+                p.write_text(compose(BHV_MUT)("behaviour", p.read_text()))
             return orig_bl(cwd, name, flags=flags, san=san, timeout=timeout)
         gen.build_library = build_library
     mod = importlib.import_module("checks." + check.lower())
